@@ -6,6 +6,8 @@ checks = {}
 for f in sorted(glob.glob(os.path.join(ROOT, "harness", "*", "check.json"))):
     checks.update(json.load(open(f)))
 props = [json.loads(l)["id"] for l in open(os.path.join(ROOT, "properties.jsonl"))]
+enabled = set(open(os.path.join(ROOT, "enabled_checks.txt")).read().split())
+checks = {k: v for k, v in checks.items() if k in enabled}
 na_path = os.path.join(ROOT, "not_applicable.json")
 na = json.load(open(na_path)) if os.path.exists(na_path) else {}
 hooks = subprocess.run(["git", "-C", "/repo", "log", "--format=%H %s"], capture_output=True, text=True).stdout.splitlines()
@@ -51,7 +53,7 @@ json.dump(m, open(os.path.join(ROOT, "MANIFEST.json"), "w"), indent=1)
 try:
     import jsonschema
     jsonschema.validate(m, json.load(open("/root/.vp/MANIFEST.schema.json")))
-    for f in glob.glob(os.path.join(ROOT, "evidence", "*.json")):
+    for f in [os.path.join(ROOT, "evidence", k + ".json") for k in sorted(checks)]:
         jsonschema.validate(json.load(open(f)), json.load(open("/root/.vp/EVIDENCE.schema.json")))
     print("MANIFEST and %d evidence files valid; %d checks, %d not_applicable" % (len(glob.glob(os.path.join(ROOT, "evidence", "*.json"))), len(m["checks"]), len(m["not_applicable"])))
 except ImportError:
